@@ -231,6 +231,11 @@ def run_twin(tdgl, args, tmp):
     except Exception as e:        # recorded: whether a run raises must not depend on the unit system
         return {"u": u, "error": f"{type(e).__name__}: {e}"}
     frames = []
+    # the mesh sites nearest to the probe points, found by the harness: argmin | xi * sites - probe | in length_units
+    probe_idx = None
+    if dev.probe_points is not None and len(dev.probe_points) == 2:
+        xy = dev.coherence_length.magnitude * np.asarray(dev.mesh.sites)
+        probe_idx = [int(np.argmin(np.sum((xy - np.asarray(p)[None, :]) ** 2, axis=1))) for p in dev.probe_points]
     with h5py.File(sol.path, "r") as f:
         for key in sorted(f["data"], key=int):
             g = f["data"][key]
@@ -242,6 +247,19 @@ def run_twin(tdgl, args, tmp):
                 fr["epsilon"] = np.array(g["epsilon"]).tolist()
             if "running_state" in g and "dt" in g["running_state"]:
                 fr["nrec"] = int(np.count_nonzero(np.atleast_1d(np.array(g["running_state"]["dt"])) > 0))
+                if "mu" in g["running_state"] and fr["nrec"] > 0 and probe_idx is not None:
+                    # per-step probe records: voltage between the two probes, and their phase difference (gauge invariant)
+                    rmu = np.array(g["running_state"]["mu"]).reshape(2, -1)[:, : fr["nrec"]]
+                    rth = np.array(g["running_state"]["theta"]).reshape(2, -1)[:, : fr["nrec"]]
+                    fr["probe_voltage_records"] = (rmu[0] - rmu[1]).tolist()
+                    fr["probe_phase_records"] = np.concatenate([np.cos(rth[0] - rth[1]), np.sin(rth[0] - rth[1])]).tolist()
+                    # the same two numbers from the frame's own fields at the sites the HARNESS finds for the probe points
+                    psi = np.array(g["psi"])
+                    fr["probe_voltage_frame"] = [float(mu[probe_idx[0]] - mu[probe_idx[1]])]
+                    fr["probe_voltage_last_record"] = [float(rmu[0, -1] - rmu[1, -1])]
+                    dth = np.angle(psi[probe_idx[0]]) - np.angle(psi[probe_idx[1]])
+                    fr["probe_phase_frame"] = [float(np.cos(dth)), float(np.sin(dth))]
+                    fr["probe_phase_last_record"] = [float(np.cos(rth[0, -1] - rth[1, -1])), float(np.sin(rth[0, -1] - rth[1, -1]))]
             frames.append(fr)
     # physical output in FIXED units, for a few frames
     phys = {}
@@ -453,3 +471,39 @@ def post_processing(sol, u, np, variant):
         attempt("post/polygon_fluxoid (flux, supercurrent part)[Wb]", f"call {n}: units={un} with_units={w}",
                 lambda: np.array([mag(x) for x in sol.polygon_fluxoid(poly, units=un, with_units=w)]) * f)
     return obs, outcomes
+
+
+# ------------------------------------------------------------------------------------ the gauge of the applied potential over many positions
+
+
+def gauge_blocks(tdgl, args, tmp):
+    """The applied potential of a uniform field, evaluated through tdgl.Parameter at N harness-chosen positions: A - B/2 (-y, x) must be
+    ONE constant vector over all positions, and the circulation round every harness triangle (i, i+1, i+2) must be B * area
+    (trapezoid rule, exact for an affine A).  Absolute reference: B and the positions are the harness' own numbers."""
+    import numpy as np
+    from tdgl.sources import ConstantField, LinearRamp
+
+    B = 0.4                                              # mT, positions in um
+    out = []
+    for N in args["sizes"]:
+        rng = np.random.RandomState(N)
+        x, y, z = rng.uniform(-2.5, 2.5, N), rng.uniform(-1.5, 1.5, N), np.zeros(N)
+        forms = {"ConstantField": (ConstantField(B, field_units="mT", length_units="um"), {}, 1.0),
+                 "ConstantField * LinearRamp at t = 0.25": (ConstantField(B, field_units="mT", length_units="um") * LinearRamp(tmin=0.0, tmax=0.5), dict(t=0.25), 0.5),
+                 "2 * ConstantField(B/2) (a CompositeParameter with a number)": (ConstantField(B / 2, field_units="mT", length_units="um") * 2, {}, 1.0)}
+        for name, (P, kw, f) in forms.items():
+            try:
+                A = np.asarray(P(x, y, z, **kw), dtype=float)[:, :2]
+                expected = 0.5 * f * B * np.stack([-y, x], axis=1)
+                d = A - expected
+                r_const = float(np.abs(d - d[0]).max() / (0.5 * f * B * 2.5))
+                i = np.arange(N - 2)
+                p, q, r = (np.stack([x[i + k], y[i + k]], axis=1) for k in range(3))
+                Ap, Aq, Ar = A[i], A[i + 1], A[i + 2]
+                circ = (np.sum((Ap + Aq) / 2 * (q - p), axis=1) + np.sum((Aq + Ar) / 2 * (r - q), axis=1) + np.sum((Ar + Ap) / 2 * (p - r), axis=1))
+                area = 0.5 * ((q[:, 0] - p[:, 0]) * (r[:, 1] - p[:, 1]) - (r[:, 0] - p[:, 0]) * (q[:, 1] - p[:, 1]))
+                r_flux = float(np.abs(circ - f * B * area).max() / (f * B * np.abs(area).max()))
+                out.append({"N": int(N), "form": name, "ntri": int(N - 2), "r_const": r_const, "r_flux": r_flux})
+            except Exception as e:
+                out.append({"N": int(N), "form": name, "ntri": int(N - 2), "r_const": 1.0, "r_flux": 1.0, "raised": f"{type(e).__name__}: {e}"[:200]})
+    return out
